@@ -46,6 +46,13 @@ def plan(tier, seed):
                 units.append({'kind': 'tokens4', 'ver': ver, 'first': i})
         units.append({'kind': 'mutations', 'ver': ver})
         units.append({'kind': 'histories', 'ver': ver})
+        units.append({'kind': 'pumps', 'ver': ver})
+        if ver != '3.0':
+            for q in range(8):
+                units.append({'kind': 'ops', 'ver': ver, 'part': q})
+        nparts = 4 if ver == '1.0' else 16
+        for q in range(nparts):
+            units.append({'kind': 'funcs', 'ver': ver, 'part': q, 'nparts': nparts})
     return {
         'units': units,
         'bounds': {'alphabet': len(alpha), 'token_sequence_length': 3, 'length4_alphabet': len(REDUCED) if tier != 'quick' else 0,
@@ -62,6 +69,7 @@ def plan(tier, seed):
 
 _P = {}
 _DOC = {}
+_STATE = {'hang': False}
 CODE_RE = re.compile(r'^(err:)?[A-Z]{4}[0-9]{4}$')
 
 
@@ -121,6 +129,7 @@ def run_input(ver, src, acc, origin):
     """parse with the shared per-version parser, then evaluate under each context"""
     p = parser(ver)
     acc.ev()
+    _STATE['hang'] = False
     signal.setitimer(signal.ITIMER_REAL, 20.0)
     try:
         try:
@@ -129,6 +138,7 @@ def run_input(ver, src, acc, origin):
             if isinstance(e, (KeyboardInterrupt, SystemExit)):
                 raise
             bad = judge(e, 'parse')
+            _STATE['hang'] = isinstance(e, Timeout)
             acc.case(False)
             acc.outcome('parse:' + (getattr(e, 'code', None) or type(e).__name__))
             if bad:
@@ -222,6 +232,193 @@ def run_histories(ver, acc, depth):
     acc.sample({'version': ver, 'history': [HIST[0], HIST[6], HIST[17]], 'then': 'every expression of the history alphabet must behave as on a fresh parser'})
 
 
+# ---- operators and functions over an edge-value alphabet ------------------------------------------------------------
+
+VALS10 = ['0', '1', '-1', '3', '9223372036854775808', '1' + '0' * 40, '0.0', '1.5', '-0.0', '0.' + '0' * 29 + '1', '1e0', '0e0', '-0e0', '1e308',
+          '1 div 0e0', '0e0 div 0e0', "''", "'a'", "'1'", "'1e400'", 'true()', 'false()', '/', '//b', '/nothing', '@id']
+VALS20 = ['xs:double("INF")', 'xs:double("NaN")', 'xs:float("1.5")', 'xs:float("NaN")', 'xs:float("-0")', 'xs:untypedAtomic("x")',
+          'xs:untypedAtomic("1")', '()', '(1, 2)', '("a", 1)', 'xs:dayTimeDuration("PT0S")', 'xs:yearMonthDuration("P0M")', 'xs:yearMonthDuration("P1M")',
+          'xs:dayTimeDuration("P1D")', 'xs:dayTimeDuration("P99999999999D")', 'xs:date("2000-01-01")', 'xs:date("-0001-12-31Z")',
+          'xs:dateTime("2000-01-01T00:00:00Z")', 'xs:dateTime("9999-12-31T23:59:59")', 'xs:time("00:00:00")', 'xs:duration("P1Y1D")',
+          'xs:anyURI("a")', 'xs:hexBinary("00")', 'xs:base64Binary("AA==")', 'xs:gYear("2000")', 'xs:gMonthDay("--02-29")', 'xs:QName("p:a")',
+          'xs:integer("-9223372036854775809")', 'xs:decimal("1e0")', 'xs:unsignedByte(255)', 'xs:string("b")', 'xs:boolean("1")', 'xs:NCName("n")']
+VALS31 = ['map { }', 'map { "a" : 1 }', '[ ]', '[ 1 , ( ) ]', 'abs#1', 'function ( $x ) { $x }']
+BINOPS10 = ['+', '-', '*', 'div', 'mod', '=', '!=', '<', '<=', '>', '>=', 'and', 'or', '|']
+BINOPS20 = ['idiv', 'eq', 'ne', 'lt', 'le', 'gt', 'ge', 'is', '<<', 'to', ',', 'union', 'intersect', 'except']
+BINOPS30 = ['||', '!']
+HUGE = {'9223372036854775808', '1' + '0' * 40, '1e308', 'xs:integer("-9223372036854775809")', '1 div 0e0', 'xs:double("INF")'}
+
+FUNC_ARGS = ['()', '0', '-1', '2', '1.5', '1e0', 'xs:double("NaN")', "''", "'a'", "'http://[x'", '(1, 2)', 'xs:date("2000-01-01")', 'xs:dayTimeDuration("PT0S")', 'true()',
+             '/', '//b', '@id', 'xs:untypedAtomic("x")', 'xs:QName("p:a")', '9223372036854775808', "'\\'", "'[Y]'", "'(a'"]
+FUNC_ARGS31 = ['map { "a" : 1 }', '[ 1 , 2 ]', 'abs#1', 'function ( $x , $y ) { $x }']
+FUNC_ARGS3 = ['()', '0', "'a'", '(1, 2)', '/', 'true()', "''"]
+NS_PREFIX = {'http://www.w3.org/2005/xpath-functions/math': 'math', 'http://www.w3.org/2005/xpath-functions/map': 'map',
+             'http://www.w3.org/2005/xpath-functions/array': 'array', 'http://www.w3.org/2005/xpath-functions': 'fn'}
+SKIP_FUNCS = {'trace', 'error'}     # trace writes to the process output; error() is meant to raise
+
+
+def vals_for(ver):
+    v = list(VALS10)
+    if ver != '1.0':
+        v += VALS20
+    if ver == '3.1':
+        v += VALS31
+    return v
+
+
+def ops_for(ver):
+    o = list(BINOPS10)
+    if ver != '1.0':
+        o += BINOPS20
+    if ver in ('3.0', '3.1'):
+        o += BINOPS30
+    return o
+
+
+def functions_of(ver):
+    """(source name, min arity, max arity) of every function and constructor registered in the parser's symbol table"""
+    from elementpath.xpath_tokens import XPathFunction
+    out = []
+    for key, cls in parser(ver).symbol_table.items():
+        if not (isinstance(cls, type) and issubclass(cls, XPathFunction)):
+            continue
+        label = str(cls.label)
+        if 'kind' in label or 'sequence type' in label or 'inline' in label or key in ('function', 'map', 'array'):
+            continue
+        if key.startswith('{'):
+            ns, local = key[1:].split('}')
+            name = NS_PREFIX.get(ns, 'fn') + ':' + local
+        elif 'constructor' in label:
+            name = 'xs:' + key
+        else:
+            name = key
+        if key in SKIP_FUNCS:
+            continue
+        n = cls.nargs
+        if n is None:
+            lo, hi = 0, 3
+        elif isinstance(n, int):
+            lo = hi = n
+        else:
+            lo, hi = n[0], (n[1] if n[1] is not None else n[0] + 1)
+        out.append((name, lo, hi))
+    return sorted(set(out))
+
+
+def run_ops(ver, part, acc):
+    import io
+    vals = vals_for(ver)
+    ops = ops_for(ver)
+    p = parser(ver)
+    objs = {}
+    from elementpath import XPathContext
+    root = contexts()[1][1]().root
+    for v in vals:
+        try:
+            objs[v] = p.parse(v).evaluate(XPathContext(root=root))
+        except Exception:  # noqa
+            pass
+    keys = list(objs)
+    n = 0
+    for a in vals:
+        for op in ops:
+            n += 1
+            if n % 8 != part:
+                continue
+            for b in vals:
+                if op == 'to' and (a in HUGE or b in HUGE):
+                    continue
+                if op == '*' and (a in HUGE and b in HUGE):
+                    pass
+                run_input(ver, '%s %s %s' % (a, op, b), acc, 'operator-matrix')
+                if a in objs and b in objs:
+                    run_with_vars(ver, '$x %s $y' % op, {'x': objs[a], 'y': objs[b]}, '%s %s %s' % (a, op, b), acc)
+    acc.sample({'version': ver, 'expression': "1.5 mod 0.0", 'and_as': '$x mod $y with the same values bound to variables'}, limit=1)
+
+
+_TOK = {}
+
+
+def run_with_vars(ver, src, variables, shown, acc):
+    from elementpath import XPathContext
+    tok = _TOK.get((ver, src))
+    if tok is None:
+        try:
+            tok = _TOK[(ver, src)] = parser(ver).parse(src)
+        except Exception:  # noqa
+            return
+    acc.ev()
+    signal.setitimer(signal.ITIMER_REAL, 20.0)
+    try:
+        try:
+            tok.evaluate(XPathContext(root=_DOC['root'], variables=dict(variables)))
+            acc.outcome('eval:value')
+        except BaseException as e:  # noqa
+            if isinstance(e, (KeyboardInterrupt, SystemExit)):
+                raise
+            bad = judge(e, 'evaluate')
+            acc.outcome('eval:' + (getattr(e, 'code', None) or type(e).__name__))
+            if bad:
+                acc.violation('C03|%s|evaluate|all-versions|%s' % (bad[0], bad[1]), '%s: evaluate %r with variables for %s' % (ver, src, shown),
+                              {'exception': repr(e)[:200], 'origin': 'operator-matrix with variables'},
+                              {'kind': 'vars', 'ver': ver, 'src': src, 'values': [shown.split(' ' + src.split(' ')[1] + ' ')[0], shown.split(' ' + src.split(' ')[1] + ' ')[-1]]})
+    finally:
+        signal.setitimer(signal.ITIMER_REAL, 0)
+    acc.cmp()
+    acc.case(True)
+
+
+def run_funcs(ver, part, nparts, tier, acc):
+    funcs = functions_of(ver)
+    args = FUNC_ARGS + (FUNC_ARGS31 if ver == '3.1' else []) if ver != '1.0' else [a for a in FUNC_ARGS if 'xs:' not in a and a not in ('()', '(1, 2)')]
+    args3 = FUNC_ARGS3 if ver != '1.0' else ['0', "'a'", '/', 'true()', "''"]
+    for i, (name, lo, hi) in enumerate(funcs):
+        if i % nparts != part:
+            continue
+        for k in range(lo, min(hi, 3) + 1):
+            if k == 0:
+                run_input(ver, '%s()' % name, acc, 'function-matrix')
+            elif k == 1:
+                for a in args:
+                    run_input(ver, '%s(%s)' % (name, a), acc, 'function-matrix')
+            elif k == 2:
+                for a in args:
+                    for b in args:
+                        run_input(ver, '%s(%s, %s)' % (name, a, b), acc, 'function-matrix')
+            else:
+                pool = args3 if tier == 'quick' else args[:14]
+                for a in pool:
+                    for b in pool:
+                        for c in pool:
+                            run_input(ver, '%s(%s, %s, %s)' % (name, a, b, c), acc, 'function-matrix')
+    acc.sample({'version': ver, 'functions': len(funcs), 'example': "compare('a', 'a', 'http://[x')"}, limit=1)
+
+
+PUMPS = [('unterminated-string', "concat('abc, %s", 'x'), ('unterminated-string-2', 'a[. = "it%s', 'y '), ('open-comment', '1 (: %s', 'c '), ('nested-parens', '%s1', '('),
+         ('balanced-parens', None, None), ('operator-chain', '1%s', ' + 1'), ('path-chain', 'a%s', '/a'), ('predicates', 'a%s', '[1]'), ('digits', '1%s', '1'),
+         ('decimal-digits', '1.%s', '1'), ('exponent', '1e%s', '1'), ('name', 'a%s', 'a'), ('escaped-quotes', "'%s", "''"), ('minus-chain', '%s1', '- '),
+         ('comment-chain', '1 %s', '(: c :) '), ('nested-comments', '1 %s', '(: '), ('braces', 'Q{%s}a', 'u'), ('string', "'%s'", 'ab ')]
+
+
+def run_pumps(ver, tier, acc):
+    """inputs of growing length for each repeatable lexical / syntactic element: finds super-linear tokenizer behaviour and resource escapes"""
+    sizes = [1, 2, 3, 5, 8, 13, 21, 26, 30, 34, 40, 48, 64] if tier == 'quick' else [1, 2, 3, 5, 8, 13, 21, 26, 30, 34, 40, 48, 64, 96, 128, 200, 256]
+    if ver == '1.0':
+        pumps = [q for q in PUMPS if q[0] not in ('open-comment', 'comment-chain', 'nested-comments', 'braces')]
+    else:
+        pumps = PUMPS
+    for name, tmpl, unit in pumps:
+        for n in sizes:
+            src = '(' * n + '1' + ')' * n if tmpl is None else tmpl % (unit * n)
+            run_input(ver, src, acc, 'pump:' + name)
+            if _STATE['hang']:
+                break
+    # one number beyond Python's integer-string conversion limit
+    run_input(ver, '1' * 5000, acc, 'pump:digits')
+    run_input(ver, '1 + ' + '1' * 5000 + ' + 1', acc, 'pump:digits')
+    acc.sample({'version': ver, 'pump': "concat('abc, " + 'x' * 30, 'rule': 'an unterminated literal followed by n characters fails at once for every n'}, limit=1)
+
+
 def tokenize_corpus(src):
     return re.findall(r"'[^']*'|Q\{[^}]*\}\w+|\(:|:\)|::|:=|\|\||=>|!=|<=|>=|<<|>>|//|\.\.|[A-Za-z_][\w.-]*(?::[A-Za-z_][\w.-]*)?(?:\(\))?|\$\w+|\d+(?:\.\d+)?(?:e\d+)?|\S", src)
 
@@ -275,6 +472,13 @@ def run_unit(unit, tier, acc):
                     seen.add(s)
                     run_input(ver, s, acc, 'mutation of ' + src)
         acc.sample({'version': ver, 'corpus_expression': CORPUS[2], 'a_mutation': ' '.join(next(iter(mutations(CORPUS[2]))))})
+    elif k == 'ops':
+        contexts()
+        run_ops(ver, unit['part'], acc)
+    elif k == 'funcs':
+        run_funcs(ver, unit['part'], unit['nparts'], tier, acc)
+    elif k == 'pumps':
+        run_pumps(ver, tier, acc)
     else:
         run_histories(ver, acc, 3 if tier != 'quick' else 2)
 
@@ -283,6 +487,12 @@ def replay(case, acc):
     signal.signal(signal.SIGALRM, _alarm)
     if case['kind'] == 'input':
         run_input(case['ver'], case['src'], acc, 'replay')
+    elif case['kind'] == 'vars':
+        contexts()
+        from elementpath import XPathContext
+        p = parser(case['ver'])
+        vs = [p.parse(v).evaluate(XPathContext(root=_DOC['root'])) for v in case['values']]
+        run_with_vars(case['ver'], case['src'], {'x': vs[0], 'y': vs[1]}, ' '.join([case['values'][0], case['src'].split(' ')[1], case['values'][1]]), acc)
     else:
         import xml.etree.ElementTree as ET
         root = ET.fromstring('<a><b>1</b><b>2</b></a>')
